@@ -198,16 +198,18 @@ last_rstack:
 void mcount_rstack_rehook(struct mcount_thread_data *mtdp)
 {
 	int idx;
+	int max;
 	struct mcount_ret_stack *rstack;
 
 	if (unlikely(mcount_estimate_return))
 		return;
 
-	idx = mtdp->idx;
-	if (idx > mcount_rstack_max)
-		idx = mcount_rstack_max;
+	max = mtdp->idx;
+	if (max > mcount_rstack_max)
+		max = mcount_rstack_max;
 
-	for (idx--; idx >= 0; idx--) {
+	/* the last one of a tail-call chain (same location) decides the hook */
+	for (idx = 0; idx < max; idx++) {
 		rstack = &mtdp->rstack[idx];
 
 		if (rstack->dyn_idx == MCOUNT_INVALID_DYNIDX)
